@@ -144,7 +144,7 @@ def run_history(acc: Acc, r: random.Random, workdir: str, hid: int, n_ops: int) 
 	src_dir = os.path.join(workdir, f'src{hid}')
 	sources = hp.sources()
 	# generated filler in the unrelated module: different programs per history
-	sources[hp.names['u']] = TypedGen(random.Random(r.getrandbits(32)), size=3).program(n_funcs=2).source
+	sources[hp.names['u']] = TypedGen(random.Random(r.getrandbits(32)), size=3).program(n_funcs=2).source + '\n\n' + sources[hp.names['u']]
 	cli.write_sources(src_dir, sources)
 	mods = hp.modules()
 	config = depends_config(workdir, hid) if hid % 2 == 0 else None
